@@ -96,7 +96,10 @@ USE = {
 def vis_files(c):
     """concretisation of a visibility case: the dependency module and the importing entry"""
     name, ref = c["name"], c["ref"]
-    mdots, mcol = ".".join(c["msegs"]), "::".join(c["msegs"])
+    route = c.get("route", "same")
+    # spelling of the route: `..m` / `crate.m` in `from` imports, `super::m` / `crate::m` in `import` declarations
+    mdots = {"same": "", "up": "..", "crate": "crate."}[route] + ".".join(c["msegs"])
+    mcol = {"same": "", "up": "super::", "crate": "crate::"}[route] + "::".join(c["msegs"])
     imp = {"from": f"from {mdots} import {name}\n", "from_alias": f"from {mdots} import {name} as Al\n",
            "item": f"import {mcol}::{name}\n", "item_alias": f"import {mcol}::{name} as Al\n",
            "none": f"from {mdots} import other\n", "qualified": f"import {mcol}\n"}[ref]
